@@ -88,7 +88,9 @@ CHECKS = {
     "C12": parser_check("C12", "accepted count {0,1,2,3,unlimited} x greedy x every vector up to the bound over a 14-token alphabet "
                                "(values, `--`, malformed dash tokens, declared/undeclared spellings); positional list, accept/reject and "
                                "every index in [-m-1,m] against the reference",
-                        ["out-of-range indices -m-1 and m: only memory safety is judged (ASan build)"]),
+                        ["out-of-range indices -m-1 and m: only memory safety is judged (ASan build)",
+                         "a free-running ThreadSanitizer pass parses with two independent parser objects in two threads (a detector for state "
+                         "shared between parser objects, not part of the exhaustive claim)"]),
     "C11": parser_check("C11", "48 toggle declarations x every vector up to the bound over a 14-token occurrence alphabet (long, short, "
                                "repeated letters, bundles, --no- forms in all orders); environment words through parse(); closed-world "
                                "check of the truthy/falsy vocabulary over every string up to the bound, all case variants, single edits"),
@@ -199,3 +201,8 @@ CHECKS = {
                             "thread-safe sinks under a cooperative scheduler; every complete schedule is judged on the bytes that reached the "
                             "non-thread-safe stream buffer"),
 }
+
+
+# C12 additionally runs a ThreadSanitizer build (two independent parsers in two threads)
+CHECKS["C12"]["variants"] = {"plain": {}, "asan": {}, "tsan": {"flags": ["-DVP_TSAN"]}}
+CHECKS["C12"]["runs"] = lambda tier: [{"variant": "plain"}, {"variant": "asan"}, {"variant": "tsan"}]
